@@ -589,7 +589,7 @@ impl Prop for C19 {
             let ev = match rng.below(20) {
                 0..=2 => Ev::CtrlC,
                 3 => Ev::Submit("💥".into()),
-                4..=6 => Ev::Submit(rng.pick(&["RUN", "CONT", "LIST", "NEW", "run", "TRACE"]).to_string()),
+                4..=6 => Ev::Submit(rng.pick(&["RUN", "CONT", "LIST", "NEW", "run", "TRACE", "NOTRACE", "NEW GAME", " new 10", "NEW\t", "RUN 10", "cont x", "LIST 1-2"]).to_string()),
                 7..=9 => Ev::Submit(format!("{} {}", 10 * (1 + rng.below(12)), statement(rng))),
                 10..=12 => Ev::Submit(statement(rng)),
                 13..=15 => Ev::Submit(rng.pick(&["5", "42", "hello", "", "1,2", "x:y", "\"q\""]).to_string()),
